@@ -260,7 +260,7 @@ def run(ctx):
                     mag = {'zero': 0.0, 'tiny': 10 ** rng.uniform(-12, -5), 'generic': rng.uniform(0.1, 1.5), 'large': rng.uniform(1.5, 2.9)}[point]
                     d = direction(rng)
                     rot = [mag * a for a in d]
-                    tr = [rng.uniform(-2, 2) for _ in range(3)]
+                    tr = [rng.uniform(-2, 2) for _ in range(3)]      # translation generic also when the rotation is zero / tiny
                     sg = [rng.uniform(-1, 1)]
                     x = {'SO3': rot, 'SE3': tr + rot, 'RxSO3': rot + sg, 'Sim3': tr + rot + sg}[g]
                     X = alg(pp, torch, g, x)
@@ -272,6 +272,11 @@ def run(ctx):
                     if point in ('zero', 'tiny'):
                         a0 = [0.0] * ADIM[g] if point == 'zero' else [1e-8 * rng.uniform(-1, 1) for _ in range(ADIM[g])]
                         xg = [float(v) for v in alg(pp, torch, g, a0, rg=False).Exp().tensor().tolist()]
+                        if t % 2:
+                            # identity / tiny rotation but generic translation and scale (small-angle branches of calcQ, Ws)
+                            tt, qq, ss = split_elt(g, generic_elt(rng, g, torch, dt))
+                            t0, q0, s0 = split_elt(g, xg)
+                            xg = join_elt(g, tt, q0, ss)
                     X = grp(pp, torch, g, xg)
                     x = xg
                     outT = X.Log().tensor()
@@ -289,7 +294,7 @@ def run(ctx):
                 eps = 2.0 ** -52
                 scale = max(1.0, max(abs(v) for v in gx))
                 # the truncated sim3 series are compared with the model, which carries the same truncation
-                tol = 1e-9 * scale
+                tol = 1e-7 * scale
                 fnm = 'exp_bwd' if op == 'Exp' else 'log_bwd'
                 ecases.append(dict(idx=i, expr='%s (1/4503599627370496) %d %s %s' % (fnm, GID[g], rlist(saved), rlist(gz)),
                                    comps=[(j, gx[j], tol) for j in range(len(gx))]))
@@ -324,6 +329,15 @@ def run(ctx):
             f = fd_single(pp, torch, rng, g, op, point)
             if f:
                 ctx.known_hit[key] = f['what']
+                break
+    # ---------------------------------------------------------------- Jinvp is differentiated by plain autograd through
+    # Log and so3_Jl_inv / calcQ (no hand-written backward): left-perturbation finite differences, every run
+    for g in GROUPS:
+        for point in ('generic', 'generic', 'generic', 'tiny'):
+            ctx.case(('jinvp-fd', g, point, rng.random()), branch='Jinvp-grad-%s' % g)
+            f = fd_single(pp, torch, rng, g, 'Jinvp', point)
+            if f:
+                ctx.violation('grad-wrong:%s:Jinvp' % g, f['what'], f)
                 break
     # ---------------------------------------------------------------- composite programs and finiteness scan (implementation level)
     composite(ctx, pp, torch)
